@@ -41,6 +41,10 @@ func (this Metadata) bytesSize() uint64 {
 }
 
 func (this Metadata) save(w io.Writer) error {
+	// Writing a length that does not fit its field would produce a stream that cannot be loaded
+	if err := this.Validate(); err != nil {
+		return err
+	}
 	if err := binary.Write(w, binary.BigEndian, uint16(len(this))); err != nil {
 		return err
 	}
